@@ -104,18 +104,19 @@ def run(run):
             # the stand-alone verdict counts only if no caller reaches the site.
             if fn.get("vis") != "Public" and local_callers(fn):
                 ctx_sites = {}
-                for g in local_callers(fn):
-                    zg, _e = interp_cached(g)
-                    for ob in zg.obligations:
-                        if ob.kind == kind and id(ob.site) in by_site:
-                            ctx_sites.setdefault(id(ob.site), []).append(ob)
-                for sid, obs in ctx_sites.items():
-                    by_site[sid] = obs
+                # sites not reached through any caller's interpretation keep their stand-alone verdict, except that a
+                # non-zero residual over the helper's own (non-self) parameters is no evidence: their relation is
+                # established by the callers
+                psyms = set()
+                for p_ in fn["params"]:
+                    if p_.get("p"):
+                        for (i_, n_, _pth) in T.pat_bindings(p_["p"]):
+                            if n_ != "self":
+                                psyms.add(n_)
                 for sid in list(by_site):
                     if sid not in ctx_sites:
-                        # not reached through any caller's interpretation: nothing can be said from the helper alone
                         for ob in by_site[sid]:
-                            ob.helper_only = True
+                            ob.param_syms = psyms
             if err:
                 run.undecided(rule, "%s|interpreter" % fn["name"], "not interpreted completely: %s" % err, F.loc(fn["body"]))
             # stable per-function numbering of sites in source order
@@ -123,7 +124,16 @@ def run(run):
             for i, obs in enumerate(order):
                 total += 1
                 site = obs[0].site
-                vs = [ob.verdict() if not getattr(ob, "helper_only", False) else (("undecided", "site in a private helper that no caller's interpretation reaches; " + ob.verdict()[1]) if ob.verdict()[0] != "holds" else ob.verdict()) for ob in obs]
+                def verdict_of(ob):
+                    v = ob.verdict()
+                    ps = getattr(ob, "param_syms", None)
+                    import re as _re
+                    # the residual (after "residual") relates at least two DIFFERENT parameters of the helper
+                    resid = v[1].split("(residual", 1)[1] if "(residual" in v[1] else v[1]
+                    if v[0] == "violated" and ps and sum(1 for sym in ps if _re.search(r"(?<![A-Za-z0-9_])%s#\d+" % _re.escape(sym), resid)) >= 2:
+                        return ("undecided", "the sizes involved are parameters of this private helper, related only by its callers (whose interpretation does not reach the site); " + v[1])
+                    return v
+                vs = [verdict_of(ob) for ob in obs]
                 bad = [(ob, v) for ob, v in zip(obs, vs) if v[0] == "violated"]
                 und = [(ob, v) for ob, v in zip(obs, vs) if v[0] == "undecided"]
                 key = "%s|%s#%d" % (fn["name"], kind, i)
